@@ -342,10 +342,12 @@ theorem enter_sameIds {w w2 : World} {v : VehicleId} {next : Act} (hwf : w.sim.W
         · cases h
         · split at h
           · cases h
-          · simp only [Outcome.bind_eq, Outcome.bind_eq_ok, Outcome.pure_eq] at h
-            obtain ⟨st', henq, s1, h0, s2, h1, h2⟩ := h
-            cases h2
-            exact (station_step_sameIds hwf hst henq h0).trans (applyAct_sameIds h1)
+          · split at h
+            · cases h
+            · simp only [Outcome.bind_eq, Outcome.bind_eq_ok, Outcome.pure_eq] at h
+              obtain ⟨st', henq, s1, h0, s2, h1, h2⟩ := h
+              cases h2
+              exact (station_step_sameIds hwf hst henq h0).trans (applyAct_sameIds h1)
   case chargingBase b cid =>
     split at h
     · cases h
